@@ -597,8 +597,17 @@ class CoordMatcher(WrappingMatcher):
         self._termcount = len(list(child.term_matchers()))
         self._scale = scale
 
+    def copy(self):
+        m = self.__class__(self.child.copy(), scale=self._scale)
+        m._termcount = self._termcount
+        return m
+
     def _replacement(self, newchild):
-        return self.__class__(newchild, scale=self._scale)
+        m = self.__class__(newchild, scale=self._scale)
+        # The number of terms in the query does not change when exhausted
+        # sub-matchers are dropped from the tree
+        m._termcount = self._termcount
+        return m
 
     def _sqr(self, score, matching):
         # This is the "SQR" (Short Query Ranking) function used by Apple's old
